@@ -6,7 +6,6 @@ import (
 	"io"
 	"strings"
 
-	"github.com/ohler55/ojg/sen"
 	"github.com/ohler55/slip"
 	"github.com/ohler55/slip/pkg/flavors"
 	"github.com/ohler55/slip/pkg/generic"
@@ -79,7 +78,7 @@ func (caller initCaller) Call(s *slip.Scope, args slip.List, depth int) slip.Obj
 			if !ok {
 				slip.TypePanic(s, depth, "bag :init :parse", args[1], "string")
 			}
-			obj.Any = sen.MustParse([]byte(so))
+			obj.Any = mustParseSEN([]byte(so))
 			if options.Converter != nil {
 				obj.Any = options.Converter.Convert(obj.Any)
 			}
@@ -88,7 +87,7 @@ func (caller initCaller) Call(s *slip.Scope, args slip.List, depth int) slip.Obj
 			if !ok {
 				slip.TypePanic(s, depth, "bag :init :read", args[1], "input-stream")
 			}
-			obj.Any = sen.MustParseReader(r)
+			obj.Any = mustParseSENReader(r)
 			if options.Converter != nil {
 				obj.Any = options.Converter.Convert(obj.Any)
 			}
